@@ -102,9 +102,29 @@ func Exec(r Run) Outcome {
 	select {
 	case err = <-done:
 	case <-time.After(to):
-		cmd.Process.Kill()
-		err = <-done
-		out.Killed = true
+		// Elapsed time alone is no verdict: on a loaded machine a process can be starved for a long time. It is
+		// declared stuck only if it is BLOCKED - no thread runnable and no CPU time used over a further observation
+		// period - or if it has used more CPU time than the whole allowance (runaway). A process that is runnable but
+		// gets no CPU is given up to ten times the allowance.
+		finished := false
+		for round := 0; round < 9 && !finished; round++ {
+			if cpuOf(cmd.Process.Pid) > to || blocked(cmd.Process.Pid, done, &err, &finished) {
+				break
+			}
+			if finished {
+				break
+			}
+			select {
+			case err = <-done:
+				finished = true
+			case <-time.After(to):
+			}
+		}
+		if !finished {
+			cmd.Process.Kill()
+			err = <-done
+			out.Killed = true
+		}
 	}
 	out.Stdout, out.Stderr = so.String(), se.String()
 	if cmd.ProcessState != nil {
@@ -150,4 +170,49 @@ func ReadTrace(path string) []TracePoint {
 		tps = append(tps, TracePoint{K: k, Name: f[1], Path: f[2], Path2: f[3], Result: l[i+4:]})
 	}
 	return tps
+}
+
+// cpuOf: user + system time the process has used so far (0 if unknown)
+func cpuOf(pid int) time.Duration {
+	b, err := os.ReadFile(fmt.Sprintf("/proc/%d/stat", pid))
+	if err != nil {
+		return 0
+	}
+	f := strings.Fields(string(b[bytes.LastIndexByte(b, ')')+1:]))
+	if len(f) < 13 {
+		return 0
+	}
+	var ut, st int64
+	fmt.Sscan(f[11], &ut)
+	fmt.Sscan(f[12], &st)
+	return time.Duration(ut+st) * 10 * time.Millisecond // USER_HZ = 100
+}
+
+// blocked watches the process for two seconds: true if in every sample no thread was runnable and the CPU time did not
+// advance. If the process ends meanwhile, *finished is set.
+func blocked(pid int, done chan error, err *error, finished *bool) bool {
+	cpu0 := cpuOf(pid)
+	for i := 0; i < 20; i++ {
+		select {
+		case *err = <-done:
+			*finished = true
+			return false
+		case <-time.After(100 * time.Millisecond):
+		}
+		tasks, _ := filepath.Glob(fmt.Sprintf("/proc/%d/task/*/stat", pid))
+		for _, t := range tasks {
+			b, e := os.ReadFile(t)
+			if e != nil {
+				continue
+			}
+			f := strings.Fields(string(b[bytes.LastIndexByte(b, ')')+1:]))
+			if len(f) > 0 && (f[0] == "R" || f[0] == "D") {
+				return false
+			}
+		}
+		if cpuOf(pid) != cpu0 {
+			return false
+		}
+	}
+	return true
 }
